@@ -28,6 +28,11 @@ func vxH_C15_handles() {
 	so := vxStoreOptions(fs)
 	so.CompactionLevelMaxSegments = 1
 	so.CompactionPercentage = -1
+	so.CollectionOptions.CachePersisted = vxChoose(2) == 1
+	rounds := 2
+	if so.CollectionOptions.CachePersisted {
+		rounds = 3 // the cached clean stack of round N pins the footer of round N-2
+	}
 	po := StorePersistOptions{CompactionConcern: CompactionConcern(vxChoose(3))}
 	store, coll, err := OpenStoreCollection(fs.dir, so, po)
 	vxAssert("open-ok", err == nil)
@@ -103,7 +108,7 @@ func vxH_C15_handles() {
 			vxAssert(tag+"-snapshot-frozen", vxGotIs(got, ref))
 		}
 	}
-	for r := 0; r < 2; r++ {
+	for r := 0; r < rounds; r++ {
 		var e vxEnt
 		e.k = K
 		e.op = vxNewOp(vxOpsSetDel) // symbolic: the solver decides Set vs Del
@@ -113,7 +118,9 @@ func vxH_C15_handles() {
 		vxExec(coll, ents)
 		layers = append(layers, ents)
 		vxDrain(coll)
-		openHandle()
+		if !so.CollectionOptions.CachePersisted || (r == rounds-1 && len(hs) == 0) {
+			openHandle()
+		}
 		readAll("after-round")
 	}
 	// close handles, collection and store in a symbolic order
